@@ -62,9 +62,11 @@ def gen_patches(rng, graph):
         elif r < 0.65 and kids:
             k = rng.choice(kids)
             sub = {rng.choice(['x', 'name', 'new']): rng.choice([55, 'sub-patched'])}
+            if rng.random() < 0.2:
+                sub = {}          # a sub-patch that was filtered down to nothing: the child must come through unchanged
             gk = [kk for kk, v in graph['attrs'][k].get('attrs', {}).items() if isinstance(v, dict) and v.get('cls') in ('Opt', 'OptSS')]
             if gk and rng.random() < 0.4:
-                sub[rng.choice(gk)] = {'x': 77}
+                sub[rng.choice(gk)] = {'x': 77} if rng.random() < 0.8 else {}
             p[k] = sub
         elif r < 0.8 and kids:
             p[rng.choice(kids)] = rng.choice(['replaced', 5])
